@@ -31,7 +31,7 @@ RULE = ("seeded random ASTs over + - * / (strings) and + - * / min max consumpti
         "sub-expressions, large values and non-dyadic rationals. distinct = canonical program JSON; non-trivial = "
         ">=2 binary operators and >=1 round compared with a discriminating bound")
 PAIRS = [f"pair:{p}{s}{c}" for p in fm.BINOPS for s in "LR" for c in fm.BINOPS]
-REQUIRED_BUCKETS = ["api-sub-expression-object-used-in-two-expressions", "api-sub-expression-also-built-under-the-enclosing-formula's-name", "mode:string", "mode:builder", "mode:api", "mode:api3", "redundant-parens", "same-engine-twice",
+REQUIRED_BUCKETS = ["inputs-stamped-in-different-time-zones-and-beginning-at-different-times", "api-sub-expression-object-used-in-two-expressions", "api-sub-expression-also-built-under-the-enclosing-formula's-name", "mode:string", "mode:builder", "mode:api", "mode:api3", "redundant-parens", "same-engine-twice",
                     "api-min-max", "api-consumption-production", "api-constant", "subexpression-zero", "mode:builderx",
                     "builder-clip-step", "inputs-begin-at-different-times",
                     "distinct-engines-with-the-same-name", "mode:pool", "api-nested-builds",
@@ -58,6 +58,8 @@ def gen(rng: Any, tier: str, i: int) -> Any:
     prog: dict[str, Any] = {"mode": mode, "nleaf": nleaf, "ast": ast}
     if mode in ("string", "builder", "pool"):
         prog["src"] = fm.to_str(ast, rng)
+    if rng.random() < 0.2:
+        prog["tzmix"] = True  # every input stamps its samples in its own (fixed-offset) zone
     if mode == "api" and rng.random() < 0.4:
         prog["nest"] = True
     if mode == "api" and rng.random() < 0.3:
@@ -221,6 +223,10 @@ def check(prog: dict[str, Any], rec: Any) -> None:
         rec.bucket("api-sub-expression-also-built-under-the-enclosing-formula's-name")
     if prog.get("prelude"):
         rec.bucket("inputs-begin-at-different-times")
+    if prog.get("tzmix"):
+        rec.bucket("inputs-stamped-in-different-time-zones")
+        if prog.get("prelude"):
+            rec.bucket("inputs-stamped-in-different-time-zones-and-beginning-at-different-times")
     if prog.get("leaf_names") and len(set(prog["leaf_names"][i] for i in set(lv))) < len(set(lv)):
         rec.bucket("distinct-engines-with-the-same-name")
     if _has(ast, lambda a: a[0] == "const"):
